@@ -429,7 +429,7 @@ theorem fnEvent_valOf {X : World} {t r : Nat} {e : Ent} (ht : t ≠ maxU32) (hlt
 /-- the value of component `c` the callback sees for row `k` of the source table of `b`, right
     after the move: the kept value, zero for an added component (and for a component the
     destination lacks) -/
-def seenAfter (W : World) (b : BatchTable) (k : Nat) (c : Comp) : Val :=
+def seenAfterFn (W : World) (b : BatchTable) (k : Nat) (c : Comp) : Val :=
   (if c ∈ (W.tbl b.newT).ids then
     (if c ∈ (W.tbl b.oldT).ids then valOf W ((W.tbl b.oldT).getEntity k).id c else some 0)
    else none).getD 0
@@ -437,7 +437,7 @@ def seenAfter (W : World) (b : BatchTable) (k : Nat) (c : Comp) : Val :=
 /-- the callback records for one source table, oldest first -/
 def tableEvents (W : World) (vs : List (Comp × Val)) (b : BatchTable) : List LogEv :=
   (List.range (W.tbl b.oldT).len).map fun k =>
-    LogEv.fn ((W.tbl b.oldT).getEntity k) W.isLocked (vs.map fun cv => (cv.1, seenAfter W b k cv.1))
+    LogEv.fn ((W.tbl b.oldT).getEntity k) W.isLocked (vs.map fun cv => (cv.1, seenAfterFn W b k cv.1))
 
 theorem stepEvents_eq {W : World} {fl : List Nat} (h : CInv W fl) {b : BatchTable}
     (hne : b.oldT ≠ b.newT) (ho : b.oldT < W.tables.length) (hn : b.newT < W.tables.length)
@@ -524,7 +524,7 @@ theorem loopEvents_eq {fl : List Nat} (vs : List (Comp × Val)) : ∀ (bts : Lis
     · apply List.map_congr_left
       intro cv _
       congr 1
-      simp only [seenAfter, e1, e2]
+      simp only [seenAfterFn, e1, e2]
       have hnot : ∀ k' : Nat, k' < (W.tbl b.oldT).len →
           ((W.tbl b.oldT).getEntity k').id ≠ ((W.tbl b'.oldT).getEntity k).id := by
         intro k' hk'' heq
@@ -777,7 +777,7 @@ theorem exchangeBatch_post' (run : ProbeRunner) {w : World} {fl : List Nat} (h :
         have hmemO : cv.1 ∈ (w.tbl b0.oldT).ids ↔ (tmask w b0.oldT).get cv.1 = true := by
           rw [cinv_tbl_ids h hlt, Mask.mem_toList]
           exact ⟨fun hh => hh.2, fun hh => ⟨tmask_reg h hlt hh, hh⟩⟩
-        simp only [seenAfter, seenVal, htbl1 _ hlt, hids, hm, Mask.mem_toList, (hsw1 _).1 cv.1]
+        simp only [seenAfterFn, seenVal, htbl1 _ hlt, hids, hm, Mask.mem_toList, (hsw1 _).1 cv.1]
         by_cases hmc : (tmask w b0.oldT).get cv.1 = true
         · have hcn := tmask_reg h hlt hmc
           by_cases hr : cv.1 ∈ rem
